@@ -824,20 +824,17 @@ def store_pipeline(prop, W, scen, replay=None, assumptions=()):
 
 def redis_pairs(W, cap):
     """RedisStore.tla at Redis-command granularity: every schedule of two operations by two replicas, replayed with miniredis' command hook as gate."""
-    ops = ["SetTok", "SetAuth", "GetTok", "GetAuth", "ClearAuth", "Remove"]
+    cfg = cfg_text("Spec", dict(Export="TRUE"), ["PrintSchedule"])
+    out, viol = W.tlc_exhaustive("RedisStore", cfg, "redis-pairs", workers=8, timeout=1800)
+    by = {}
+    for m in W.scenarios_from(out):
+        by.setdefault((m["opA"], m["opB"], m["start"]), []).append(m)
     scen = []
-    for a in ops:
-        for b in ops:
-            if ops.index(b) < ops.index(a):
-                continue   # the pair (b, a) is the same set of schedules with the clients renamed
-            for st in ("absent", "pending", "tokens"):
-                cfg = cfg_text("Spec", dict(OpA='"%s"' % a, OpB='"%s"' % b, Start='"%s"' % st, Export="TRUE"), ["PrintSchedule"])
-                out, viol = W.tlc_exhaustive("RedisStore", cfg, "redis-%s-%s-%s" % (a, b, st), workers=1, timeout=600)
-                ms = W.scenarios_from(out)
-                ms = sample(W, ms, cap)
-                for i, m in enumerate(ms):
-                    m["id"] = "redispair/%s-%s/%s/%d" % (a, b, st, i)
-                scen += ms
+    for (a, b, st), ms in sorted(by.items()):
+        ms = sample(W, ms, cap)
+        for i, m in enumerate(ms):
+            m["id"] = "redispair/%s-%s/%s/%d" % (a, b, st, i)
+        scen += ms
     trace = W.drive("TestRedisPair", scen, "redispair", timeout=1800)
     v = W.validate(trace, "redispair", module="RedisPairTrace")
     if v["fired"].get("scenarios", 0) != len(scen):
